@@ -89,6 +89,30 @@ static Obs observe(cocls::future<T> &f) {
     return o;
 }
 
+// the same result read through a const reference to the future (the const overload of value())
+template <typename T>
+static Obs observe_const(const cocls::future<T> &f) {
+    Obs o;
+    try {
+        if constexpr (std::is_void_v<T>) {
+            f.value();
+            o.kind = 1;
+        } else {
+            auto &v = f.value();
+            o.kind = 1;
+            o.val = Tr<T>::read(const_cast<std::remove_const_t<std::remove_reference_t<decltype(v)>> &>(v));
+        }
+    } catch (const TestError &e) {
+        o.kind = 2;
+        o.val = e.code;
+    } catch (const cocls::await_canceled_exception &) {
+        o.kind = 3;
+    } catch (const cocls::value_not_ready_exception &) {
+        o.kind = 4;
+    }
+    return o;
+}
+
 template <typename T>
 static bool call_value(cocls::promise<T> &p, int i) {
     if constexpr (std::is_void_v<T>)
@@ -283,6 +307,8 @@ static void scenario(int n, const int *kinds, int wk) {
     VRT_CHECK(o1 == expect, "future/wrong-result", "future holds kind=%d val=%ld, winner payload kind=%d val=%ld (winner %d)", o1.kind, o1.val, expect.kind,
               expect.val, win);
     VRT_CHECK(o1 == o2, "future/result-changed", "two reads differ");
+    Obs o3 = observe_const<T>(*f);
+    VRT_CHECK(o1 == o3, "future/result-changed", "read through a const reference to the future gives kind=%d val=%ld, the plain read kind=%d val=%ld", o3.kind, o3.val, o1.kind, o1.val);
     bool hv = f->has_value();
     VRT_CHECK(hv == (expect.kind != 3), "future/has_value-mismatch", "has_value()=%d expected kind %d", (int)hv, expect.kind);
     if (wk != W_NONE) {
